@@ -1,8 +1,6 @@
 import Pfl
-#print axioms Pfl.FST.relOutputs_iff
-#print axioms Pfl.FST.translate_exact
-#print axioms Pfl.FST.rename_injective
-#print axioms Pfl.FST.union_rel
-#print axioms Pfl.FST.concatenate_rel
-#print axioms Pfl.FST.kleeneStar_rel
-#print axioms Pfl.ENFA.member_iff
+#print axioms Pfl.IG.derivable_sound
+#print axioms Pfl.IG.marks_sound
+#print axioms Pfl.IG.marks_complete
+#print axioms Pfl.IG.isEmpty_iff
+#print axioms Pfl.IG.removeUseless_nonEmpty
